@@ -9,7 +9,9 @@
   in this model a tensor is a function of NAMED bonds, so the order in which children are listed
   cannot matter: that the implementation's axis bookkeeping realises this model is what the
   correspondence / dense oracle checks (todense with permuted children).
-  Proved: scaling any one node scales every amplitude; relabelling the nodes (listing them in a
+  Proved: a gauge transformation on ANY bond (multiply one end by G, the other by G⁻¹ — what every
+  `push_cano_to_child/parent`, QR and lossless SVD of the tree code does) leaves every amplitude unchanged
+  (`amp_bond_gauge`; the tree analogue of C04's `amp_steps`); scaling any one node scales every amplitude; relabelling the nodes (listing them in a
   different order, e.g. another traversal) and relabelling the values of a bond (a permutation
   gauge) leave every amplitude unchanged; a sum network (disjoint bond values, block tensors) has
   the sum of the amplitudes provided no tensor mixes the two halves.
@@ -20,6 +22,7 @@ import Mathlib.Algebra.BigOperators.Pi
 import Mathlib.Data.Fintype.Pi
 import Mathlib.Data.Fintype.BigOperators
 import Mathlib.Logic.Equiv.Fintype
+import Mathlib.Logic.Equiv.Prod
 import Mathlib.Tactic.Ring
 
 namespace RenoVerif.TN
@@ -85,5 +88,97 @@ theorem amp_add_node (T : Net R dim P) (v0 : V) (T1 T2 : Assign dim → P v0 →
     apply Finset.prod_congr rfl
     intro v hv
     rw [dif_neg (Finset.ne_of_mem_erase hv), dif_neg (Finset.ne_of_mem_erase hv)]
+
+/-! ### gauge freedom on a bond -/
+
+/-- abstract core: one distinguished bond of dimension `d`, all other bonds collected in `A`; `G * Ginv = 1` -/
+theorem gauge_core {A : Type} [Fintype A] {d : ℕ} (Tu Tw : Fin d → A → R) (rest : Fin d → A → R)
+    (hrest : ∀ j j' a, rest j a = rest j' a)
+    (G Ginv : Fin d → Fin d → R) (hG : ∀ k l, ∑ j, G k j * Ginv j l = if k = l then 1 else 0) :
+    ∑ a : A, ∑ j : Fin d, (∑ k, Tu k a * G k j) * (∑ l, Ginv j l * Tw l a) * rest j a
+      = ∑ a : A, ∑ j : Fin d, Tu j a * Tw j a * rest j a := by
+  apply Finset.sum_congr rfl
+  intro a _
+  have : ∀ j : Fin d, (∑ k, Tu k a * G k j) * (∑ l, Ginv j l * Tw l a) * rest j a
+      = ∑ k, ∑ l, Tu k a * Tw l a * rest k a * (G k j * Ginv j l) := by
+    intro j
+    rw [Finset.sum_mul_sum, Finset.sum_mul]
+    apply Finset.sum_congr rfl; intro k _
+    rw [Finset.sum_mul]
+    apply Finset.sum_congr rfl; intro l _
+    rw [hrest j k a]; ring
+  simp_rw [this]
+  rw [Finset.sum_comm]
+  apply Finset.sum_congr rfl; intro k _
+  rw [Finset.sum_comm]
+  simp_rw [← Finset.mul_sum, hG]
+  simp
+
+omit [Fintype B] in
+theorem update_splitAt_symm (e0 : B) (j k : Fin (dim e0)) (γ : (e : {e // e ≠ e0}) → Fin (dim e)) :
+    Function.update ((Equiv.piSplitAt e0 (fun e => Fin (dim e))).symm (j, γ)) e0 k
+      = (Equiv.piSplitAt e0 (fun e => Fin (dim e))).symm (k, γ) := by
+  funext e
+  by_cases h : e = e0
+  · subst h; simp [Equiv.piSplitAt]
+  · simp [Equiv.piSplitAt, Function.update, h]
+
+omit [Fintype B] in
+theorem splitAt_symm_self (e0 : B) (j : Fin (dim e0)) (γ : (e : {e // e ≠ e0}) → Fin (dim e)) :
+    ((Equiv.piSplitAt e0 (fun e => Fin (dim e))).symm (j, γ)) e0 = j := by
+  simp [Equiv.piSplitAt]
+
+
+/-- **bond gauge**: on any bond `e0` joining the nodes `u ≠ w` of ANY network (tree, chain, dummy nodes …), multiplying
+    `u`'s tensor by `G` and `w`'s tensor by `G⁻¹` along that bond (what `push_cano_to_child/parent`, a QR or a lossless SVD
+    on that bond do) leaves every amplitude unchanged, provided no other tensor depends on that bond -/
+theorem amp_bond_gauge (T : Net R dim P) (e0 : B) (u w : V) (huw : u ≠ w)
+    (G Ginv : Fin (dim e0) → Fin (dim e0) → R)
+    (hG : ∀ k l, ∑ j, G k j * Ginv j l = if k = l then 1 else 0)
+    (hloc : ∀ v, v ≠ u → v ≠ w → ∀ (β : Assign dim) k p, T v (Function.update β e0 k) p = T v β p)
+    (cfg : (v : V) → P v) :
+    amp dim P (fun v β p =>
+        if v = u then ∑ k, T v (Function.update β e0 k) p * G k (β e0)
+        else if v = w then ∑ l, Ginv (β e0) l * T v (Function.update β e0 l) p
+        else T v β p) cfg = amp dim P T cfg := by
+  unfold amp
+  have hw : w ∈ (univ : Finset V).erase u := Finset.mem_erase.mpr ⟨huw.symm, Finset.mem_univ w⟩
+  -- split the product over the nodes into u, w and the rest, on both sides
+  have split : ∀ (f : V → R), ∏ v, f v = f u * f w * ∏ v ∈ (univ.erase u).erase w, f v := by
+    intro f
+    rw [← Finset.mul_prod_erase univ f (Finset.mem_univ u), ← Finset.mul_prod_erase _ f hw, mul_assoc]
+  simp_rw [split]
+  simp only [if_true, if_neg huw.symm]
+  have hrestv : ∀ v ∈ (univ.erase u).erase w, v ≠ u ∧ v ≠ w := by
+    intro v hv
+    exact ⟨Finset.ne_of_mem_erase (Finset.mem_of_mem_erase hv), Finset.ne_of_mem_erase hv⟩
+  have hprod : ∀ β : Assign dim,
+      (∏ v ∈ (univ.erase u).erase w,
+        (if v = u then ∑ k, T v (Function.update β e0 k) (cfg v) * G k (β e0)
+          else if v = w then ∑ l, Ginv (β e0) l * T v (Function.update β e0 l) (cfg v) else T v β (cfg v)))
+      = ∏ v ∈ (univ.erase u).erase w, T v β (cfg v) := by
+    intro β
+    apply Finset.prod_congr rfl
+    intro v hv
+    rw [if_neg (hrestv v hv).1, if_neg (hrestv v hv).2]
+  simp_rw [hprod]
+  -- reindex the bond assignments as (value on e0, values on the other bonds)
+  let S := (Equiv.piSplitAt e0 (fun e => Fin (dim e))).symm
+  rw [← Equiv.sum_comp S, ← Equiv.sum_comp S (fun β => T u β (cfg u) * T w β (cfg w) * ∏ v ∈ (univ.erase u).erase w, T v β (cfg v))]
+  rw [Fintype.sum_prod_type_right, Fintype.sum_prod_type_right]
+  have key := gauge_core (R := R) (A := (e : {e // e ≠ e0}) → Fin (dim e)) (d := dim e0)
+    (fun k γ => T u (S (k, γ)) (cfg u)) (fun l γ => T w (S (l, γ)) (cfg w))
+    (fun j γ => ∏ v ∈ (univ.erase u).erase w, T v (S (j, γ)) (cfg v))
+    (by
+      intro j j' γ
+      apply Finset.prod_congr rfl
+      intro v hv
+      have := hloc v (hrestv v hv).1 (hrestv v hv).2 (S (j', γ)) j (cfg v)
+      rw [← this]
+      congr 1
+      exact (update_splitAt_symm dim e0 j' j γ).symm)
+    G Ginv hG
+  simp only [S, update_splitAt_symm, splitAt_symm_self] at key ⊢
+  exact key
 
 end RenoVerif.TN
